@@ -4,7 +4,7 @@ E4: models `y = delay(expr, dur)` with dur over every expression built from one 
 category {literal, constant, parameter, fixed input, free input, time, state, der(state), algebraic}
 (single symbols; ordered pairs joined by + or *), expr in {x, 2*x+p, x[i], whole vector}, outside and inside
 a for-loop (an array of delays), one or two delays per model, under a set of compiler options.  Every model
-goes through the real `api.transfer_model` on a scratch model folder (cache off; thorough also cache on).
+goes through the real `api.transfer_model` on a scratch model folder (cache off).
 
 Reference (this file): the category of a symbol follows from our own declarations; a model must be accepted
 iff every free symbol of every duration is a literal, constant, parameter or fixed input.  For accepted models
@@ -141,7 +141,7 @@ def expr_node(place, ekind):
     return e
 
 
-# compiler option sets (name -> options); "cache" is special-cased in run_options
+# compiler option sets (name -> options)
 OPTIONS = {
     "default": {},
     "ev": {"expand_vectors": True},
@@ -155,8 +155,9 @@ OPTIONS = {
     "ev+mx+aliases": {"expand_vectors": True, "expand_mx": True, "detect_aliases": True},
     "mx": {"expand_mx": True},
     "repl-par-expr": {"replace_parameter_expressions": True},
-    "cache": {"cache": True},
 }
+# cache=True is deliberately not an option set here: cached models are C19's subject, and this header cannot be cached for
+# reasons that have nothing to do with delay validation (see out/notes/C22.md (e)).
 QUICK_OPTS = ["default", "ev", "ev+mx", "aliases", "repl-const", "repl-par", "affine", "serial"]
 QUICK_OPTS_2 = ["default", "ev", "aliases", "serial"]
 THOROUGH_OPTS = list(OPTIONS)
@@ -515,21 +516,10 @@ def examine(model, spec, targets, optname, seed, text):
 
 
 def run_model(folder, optname):
-    """One transfer_model call (two for the cache option): list of models or the exception."""
+    """One transfer_model call on the scratch folder (cache and codegen off)."""
     from pymoca.backends.casadi.api import transfer_model
 
-    opts = dict(OPTIONS[optname])
-    if optname != "cache":
-        return [transfer_model(folder, "M", opts)]
-    sub = os.path.join(folder, "cached")
-    os.makedirs(sub, exist_ok=True)
-    shutil.copy(os.path.join(folder, "M.mo"), os.path.join(sub, "M.mo"))
-    for f in os.listdir(sub):
-        if f.endswith(".pymoca_cache"):
-            os.remove(os.path.join(sub, f))
-    first = transfer_model(sub, "M", dict(opts))
-    second = transfer_model(sub, "M", dict(opts))
-    return [first, second]
+    return transfer_model(folder, "M", dict(OPTIONS[optname]))
 
 
 def check(job):
@@ -546,7 +536,7 @@ def check(job):
             case = {"spec": spec, "opt": optname, "text": text}
             r = {"opt": optname, "viol": [], "outcome": None, "exc": None}
             try:
-                models = run_model(folder, optname)
+                m = run_model(folder, optname)
                 err = None
             except Exception as e:
                 err = e
@@ -558,13 +548,9 @@ def check(job):
             else:
                 r["outcome"] = "accepted"
                 if want == "reject":
-                    r["viol"].append(("disallowed-duration-accepted:%s" % "+".join(bad), "a delay duration depends on %s, but transfer_model(%s) accepts the model (delay_arguments %r)\n%s" % (", ".join(bad), OPTIONS[optname], [str(a.duration) for a in models[0].delay_arguments], text), case))
+                    r["viol"].append(("disallowed-duration-accepted:%s" % "+".join(bad), "a delay duration depends on %s, but transfer_model(%s) accepts the model (delay_arguments %r)\n%s" % (", ".join(bad), OPTIONS[optname], [str(a.duration) for a in m.delay_arguments], text), case))
                 else:
-                    for mi, m in enumerate(models):
-                        v = examine(m, spec, targets, optname, seed, text)
-                        if mi == 1:
-                            v = [("cached-model:" + s, msg, c) for s, msg, c in v]
-                        r["viol"] += v
+                    r["viol"] += examine(m, spec, targets, optname, seed, text)
             results.append(r)
     finally:
         shutil.rmtree(folder, ignore_errors=True)
@@ -649,7 +635,7 @@ def run(ctx):
             "for i in 2:3: x, 2*xv[i]+p, xv[i]%s} x option sets; two-delay models: every ordered pair of single-symbol durations "
             "(%s) x layouts {out/out, out/loop, loop/out, same loop, two loops} x expression pairs x option sets%s. Option sets: default, "
             "expand_vectors (+expand_mx), detect_aliases, replace_constant_*, replace_parameter_*, reduce_affine_expression, unroll_loops=False "
-            "(thorough: their combinations, expand_mx alone, replace_parameter_expressions alone, cache on with a second, cached, load). Each (model, option set) "
+            "(thorough: their combinations, expand_mx alone, replace_parameter_expressions alone). Each (model, option set) "
             "is one transfer_model call on a scratch folder. Non-trivial = some duration mentions a declared symbol or time, so the verdict "
             "hinges on its category (literal-only durations are the trivial rest)."
             % (
